@@ -5,8 +5,8 @@ EXTENDS Integers, Sequences, TLC, Json
 CONSTANT Cap        \* longest choice vector enumerated exhaustively per type
 VARIABLE c
 Types == << <<"Scalars", 5>>, <<"Floats", 4>>, <<"Datatypes", 6>>, <<"Addresses", 3>>, <<"NewTypes", 2>>, <<"Pointers", 9>>, <<"Slices", 5>>,
-            <<"Nested", 6>>, <<"SliceNested", 4>>, <<"Embedded", 3>>, <<"Omit", 6>>, <<"Vendor", 4>>, <<"AVPs", 5>>,
-            <<"VendorOdd", 2>>, <<"EmbeddedLate", 4>>, <<"BaseGroup", 3>>, <<"EmbeddedTagged", 3>>, <<"BaseVSA", 3>>, <<"DatatypeConv", 3>>, <<"Repeat", 4>>, <<"SignedU32", 2>> >>
+            <<"Nested", 6>>, <<"SliceNested", 4>>, <<"Embedded", 3>>, <<"Omit", 8>>, <<"Vendor", 4>>, <<"AVPs", 5>>,
+            <<"VendorOdd", 2>>, <<"EmbeddedLate", 4>>, <<"BaseGroup", 3>>, <<"EmbeddedTagged", 3>>, <<"BaseVSA", 3>>, <<"DatatypeConv", 3>>, <<"Repeat", 4>>, <<"SignedU32", 2>>, <<"EmptyGroups", 6>>, <<"BaseShadow", 2>> >>
 LenOf(n) == LET L == Types[n][2] IN IF L > Cap THEN Cap ELSE L
 Init == c \in {[type |-> Types[n][1], vec |-> <<>>, n |-> n] : n \in 1..Len(Types)}
 Next == /\ Len(c.vec) < LenOf(c.n) /\ \E k \in 0..2 : c' = [c EXCEPT !.vec = Append(@, k)]
